@@ -16,6 +16,10 @@ pub enum SizeClass {
     AlignedOff(i8),
     Big(u16),
     Huge,
+    /// aim: the record ends exactly `off` bytes from the allocated end of the open log file (the store grows the file by
+    /// 1 MiB when a record does not leave at least one zero byte behind it); far from the end the class first
+    /// produces one large record (config contents of 1 MB and more are legal) that stops a few hundred bytes short
+    FileEnd(i8),
 }
 
 #[derive(Debug, Clone, Serialize, Deserialize, PartialEq)]
@@ -72,6 +76,16 @@ pub struct LogCase {
     /// several real file switches. None = the real limit (173k+ records per file).
     #[serde(default)]
     pub index_area_limit: Option<u64>,
+    /// true: the driver does NOT read the log back after every operation (nor between a delete-from and the appends
+    /// that follow it, which is how async-raft issues them); it observes at generated `Read` ops, after every reopen
+    /// and at the end. Reads have side effects on the manager (file positions), so a history without them is a
+    /// different history.
+    #[serde(default)]
+    pub sparse_observe: bool,
+    /// true: the `FileEnd` size class is live in this history (it writes about 1 MiB per aimed pair, so only a
+    /// fraction of the histories carries it); false: `FileEnd` sizes are ordinary small records
+    #[serde(default)]
+    pub aim_file_end: bool,
 }
 
 pub fn size_strategy() -> impl Strategy<Value = SizeClass> {
@@ -83,6 +97,7 @@ pub fn size_strategy() -> impl Strategy<Value = SizeClass> {
         2 => prop_oneof![Just(-1i8), Just(1i8), Just(-2i8), Just(2i8)].prop_map(SizeClass::AlignedOff),
         2 => (1100u16..4096).prop_map(SizeClass::Big),
         1 => Just(SizeClass::Huge),
+        1 => prop_oneof![3 => Just(0i8), 1 => Just(-1i8), 1 => Just(1i8), 1 => Just(-2i8)].prop_map(SizeClass::FileEnd),
     ]
 }
 
@@ -187,12 +202,12 @@ pub fn roll_case_strategy(profile: Profile) -> BoxedStrategy<LogCase> {
             vec![LogOp::AppendMany { n: 400 + cross, size: SizeClass::Small(50), batch }, LogOp::CompactPointer { at: at2 }, LogOp::CompactPointer { at: at3 }],
         )),
     ];
-    (any::<bool>(), prop_oneof![3 => 0u16..6, 3 => 6u16..140, 2 => 140u16..400], prefix, prop::collection::vec(op, 4..14))
-        .prop_map(|(big, stop, (mut prefix, after), ops)| {
+    (any::<bool>(), prop_oneof![3 => 0u16..6, 3 => 6u16..140, 2 => 140u16..400], prefix, prop::collection::vec(op, 4..14), prop::bool::weighted(0.35))
+        .prop_map(|(big, stop, (mut prefix, after), ops, sparse_observe)| {
             prefix.push(LogOp::FillToRollover { big, stop });
             prefix.extend(after);
             prefix.extend(ops);
-            LogCase { start_index: 1, pre_term: 0, ops: prefix, index_area_limit: None }
+            LogCase { start_index: 1, pre_term: 0, ops: prefix, index_area_limit: None, sparse_observe, aim_file_end: false }
         })
         .boxed()
 }
@@ -202,14 +217,18 @@ pub fn case_strategy(profile: Profile, l2: bool, max_ops: usize) -> BoxedStrateg
         prop_oneof![3 => Just(1u64), 1 => Just(0u64), 2 => 2u64..100_000, 1 => Just(1u64 << 33)],
         0u64..5,
         prop::collection::vec(op_strategy(profile, l2), 1..max_ops),
+        prop::bool::weighted(0.35),
+        prop::bool::weighted(0.1),
     )
-        .prop_map(move |(start_index, pre_term, ops)| LogCase {
+        .prop_map(move |(start_index, pre_term, ops, sparse_observe, aim_file_end)| LogCase {
             // the manager always starts the very first file at the first appended index; async-raft
             // starts at 1 (0 only for the initial blank entry of a pristine single node)
             start_index: if l2 { 1 } else { start_index },
             pre_term,
             ops,
             index_area_limit: None,
+            sparse_observe,
+            aim_file_end,
         })
         .boxed()
 }
@@ -288,10 +307,16 @@ pub struct LogModel {
     pub rollovers: u64,
     /// offset at which the index area counts as full (the data area start unless the verification hook moves it)
     pub limit: u64,
+    /// mirror of the open file's data cursor and allocated length (aiming only, never part of the oracle)
+    pub open_cursor: u64,
+    pub open_file_len: u64,
+    pub file_end_aims: u32,
+    pub file_end_enabled: bool,
 }
 
 pub const INDEX_AREA_START: u64 = 32;
 pub const DATA_AREA_START: u64 = 4096;
+pub const LOG_DATA_BUF_SIZE: u64 = 1024 * 1024;
 
 impl LogModel {
     pub fn new(start_index: u64, pre_term: u64) -> Self {
@@ -310,7 +335,16 @@ impl LogModel {
             files: vec![(start_index, 0)],
             rollovers: 0,
             limit: DATA_AREA_START,
+            open_cursor: DATA_AREA_START,
+            open_file_len: LOG_DATA_BUF_SIZE,
+            file_end_aims: 0,
+            file_end_enabled: false,
         }
+    }
+    /// a new open log file starts (file switch, install that replaces the log)
+    pub fn reset_open_file(&mut self) {
+        self.open_cursor = DATA_AREA_START;
+        self.open_file_len = LOG_DATA_BUF_SIZE;
     }
     /// the store switches to a new file when, after an index entry has been written, fewer than 10 bytes of the
     /// index area are left
@@ -351,6 +385,7 @@ impl LogModel {
         self.grp_bytes = 0;
         self.grp_count = 0;
         self.rollovers += 1;
+        self.reset_open_file();
     }
     fn mirror_recompute(&mut self) {
         // files that start behind the new end are gone; the file that holds the end is the open one again
@@ -410,8 +445,30 @@ impl LogModel {
         (self.entries.len() - self.file_first_entry_pos.min(self.entries.len())) as u64
     }
 
-    pub fn value_len_for(&self, size: &SizeClass, index: u64, term: u64) -> (u64, bool) {
+    pub fn value_len_for(&mut self, size: &SizeClass, index: u64, term: u64) -> (u64, bool) {
         match size {
+            SizeClass::FileEnd(off) => {
+                // at most two aimed pairs per history (each pair writes about 1 MiB)
+                if !self.file_end_enabled || self.file_end_aims >= 4 || self.entries.len() > 5000 {
+                    return (41, false);
+                }
+                let cursor = self.open_cursor;
+                let target = (self.open_file_len as i64 + *off as i64) as u64;
+                if target <= cursor + 8 {
+                    return (41, false);
+                }
+                let left = target - cursor;
+                self.file_end_aims += 1;
+                if left > 70_000 {
+                    // one large record that stops 40..700 bytes short of the target
+                    let short = 40 + (index * 37 + term * 11) % 660;
+                    return (left - short - 12, false);
+                }
+                match value_len_for_end(index, term, cursor, target) {
+                    Some(v) => (v, false),
+                    None => (41, false),
+                }
+            }
             SizeClass::Tiny(v) => (*v as u64, false),
             SizeClass::Small(v) => (*v as u64, false),
             SizeClass::Medium(v) => (*v as u64, false),
@@ -484,6 +541,17 @@ impl LogModel {
             self.first_index = e.index;
         }
         self.entries.push(e.clone());
+        {
+            let l = record_len(e.index, e.term, e.value_len);
+            // the store's growth rule: grow when the record would not leave a byte behind it
+            if self.open_file_len <= self.open_cursor + l {
+                self.open_file_len += l.max(LOG_DATA_BUF_SIZE);
+            }
+            self.open_cursor += l;
+            if self.open_cursor == self.open_file_len {
+                // (cannot happen with the store's rule; kept so that a mis-aim shows up in the labels)
+            }
+        }
         if self.track_roll {
             let l = record_len(e.index, e.term, e.value_len);
             self.mirror_push(l);
@@ -500,6 +568,8 @@ impl LogModel {
         if self.track_roll {
             self.mirror_recompute();
         }
+        // the file never shrinks; the cursor goes back to the end of what is left in the open file
+        self.open_cursor = self.layout().0;
         removed
     }
 }
